@@ -4,7 +4,6 @@ from __future__ import annotations
 from ..specs import operators as optab
 from . import coretypes as ct
 from . import array_folds as af
-from .units_rules import check_array_to
 
 EXPLANATION = (
     "Static rules on core/array.py: (R1) the six comparison and three binary logical dunders resolve to "
@@ -19,8 +18,8 @@ TRUSTED = ("CPython ast", "numpy/pint behave as documented", "S4 operator table"
 
 def r1_table(run, tree):
     run.rule("C07.R1", "comparison/logical operator table", "S4 table", "Python data model", floor=10)
-    ct.check_operator_table(run, tree, optab.COMPARE)
-    ct.check_operator_table(run, tree, optab.LOGICAL)
+    af.check_operator_table_fold(run, tree, optab.COMPARE)
+    af.check_operator_table_fold(run, tree, optab.LOGICAL)
     ct.check_composites(run, tree, ["__invert__"])
 
 
@@ -28,8 +27,8 @@ def r2_strict_conversion(run, tree):
     run.rule("C07.R2", "strict conversion precedes the comparison ufunc; equal-unit conversion is the identity",
              "D7 fold of _binary_op (strict) + D1 on Array.to", "pint: Quantity.to raises DimensionalityError iff dimensions differ", floor=6)
     af.check_binary_op_fold(run, tree, stricts=(True,))
-    check_array_to(run, tree)
-    ct.check_array_constructor(run, tree)
+    af.check_to_fold(run, tree)
+    af.check_constructor_fold(run, tree)
 
 
 def r3_bool_dimensionless(run, tree):
